@@ -46,6 +46,9 @@ def _find_arrays(items, out):
     return out
 
 
+_GUARD_SUMMARIES = {}
+
+
 def check_alloc_guards(ctx, st):
     """`let allocation_size = count * K; if allocation_size > MAX { return Err(AllocationTooLarge) }`: K may not exceed the minimum
     wire size of one element - otherwise count * K can pass MAX for a count whose elements do fit into a frame, and a valid
@@ -71,7 +74,25 @@ def check_alloc_guards(ctx, st):
                 by_count.setdefault(it["count"][1], []).append(it)
         for fl, crate, fn in rfs:
             body = fn["hir"]
-            stmts = [x for x in H.walk(body) if H.tag(x) == "let" and H.tag(x[1]) == "bind" and x[1][1] == "allocation_size" and x[2] is not None]
+            # the guarded expressions: the left side of `if X > MAX { return Err(AllocationTooLarge..) }` (looked through a local bound
+            # by `let`), or the guarded argument of a guard helper (`allocation_guard(count * K, MAX)?`)
+            lets = {x[1][1]: x for x in H.walk(body) if H.tag(x) == "let" and H.tag(x[1]) == "bind" and x[2] is not None}
+            stmts = []
+            for x in H.walk(body):
+                if H.tag(x) == "if" and any(H.tag(y) in ("path", "struct", "call") and "AllocationTooLarge" in str(y[1] if H.tag(y) != "call" else H.call_path(y)) for y in H.walk(x[2])):
+                    c = H.strip(x[1])
+                    if H.tag(c) == "bin" and c[2] in ("Gt", "Ge"):
+                        e0 = H.strip(c[4])
+                        nm0 = H.local_name(e0)
+                        stmts.append(["guard", None, lets[nm0][2] if nm0 in lets else e0])
+                elif H.tag(x) == "call" and (H.call_path(x) or "").startswith("crate::"):
+                    from ..ranges import guard_fn_summary
+                    cp = H.call_path(x)
+                    if cp not in _GUARD_SUMMARIES.setdefault(crate, {}):
+                        _GUARD_SUMMARIES[crate][cp] = guard_fn_summary(g.f(crate).fn(cp))
+                    gs = _GUARD_SUMMARIES[crate][cp]
+                    if gs is not None and gs[0] < len(H.call_args(x)):
+                        stmts.append(["guard", None, H.call_args(x)[gs[0]]])
             for stt in stmts:
                 n += 1
                 e = H.strip(stt[2])
